@@ -167,7 +167,7 @@ func workerMain(args []string) int {
 
 var (
 	verifDir = envOr("VERIF_DIR", "/verif")
-	workDir  = filepath.Join(verifDir, "work")
+	workDir  = envOr("VERIF_WORKDIR", filepath.Join(verifDir, "work")) // check.sh gives every invocation its own
 )
 
 func envOr(k, d string) string {
